@@ -1154,7 +1154,7 @@ func (p *Printer) stmt(s *Stmt) {
 	if sep || s.Background || s.Coprocess || s.Disown {
 		if sep {
 			p.bslashNewl()
-		} else if !p.minify {
+		} else if !p.minify || (len(s.Redirs) == 0 && s.Cmd != nil && endsInLet(s.Cmd)) {
 			p.space()
 		}
 		if s.Background {
@@ -1269,6 +1269,9 @@ func (p *Printer) command(cmd Command, redirs []*Redirect) (startRedirs int) {
 		p.semiRsrv("done", cmd.DonePos)
 	case *BinaryCmd:
 		p.stmt(cmd.X)
+		if p.minify && stmtEndsInLet(cmd.X) {
+			p.space()
+		}
 		if p.minify || p.singleLine || cmd.Y.Pos().Line() <= p.line {
 			// leave p.nestedBinary untouched
 			p.spacedToken(cmd.Op.String(), cmd.OpPos)
@@ -1662,6 +1665,27 @@ func startsWithLparen(node Node) bool {
 		return true // keep ( ((
 	}
 	return false
+}
+
+// endsInLet reports whether the printed form of a command ends with the last
+// arithmetic expression of a let clause, which would take a following
+// operator such as & or | as its own when minifying.
+func endsInLet(cmd Command) bool {
+	switch cmd := cmd.(type) {
+	case *LetClause:
+		return true
+	case *BinaryCmd:
+		return stmtEndsInLet(cmd.Y)
+	case *TimeClause:
+		return cmd.Stmt != nil && stmtEndsInLet(cmd.Stmt)
+	case *CoprocClause:
+		return stmtEndsInLet(cmd.Stmt)
+	}
+	return false
+}
+
+func stmtEndsInLet(s *Stmt) bool {
+	return !s.Background && !s.Coprocess && !s.Disown && len(s.Redirs) == 0 && s.Cmd != nil && endsInLet(s.Cmd)
 }
 
 func endsWithRparen(node Node) bool {
